@@ -167,7 +167,7 @@ def rewrite_str_methods(func, glb, module=None, qualname=None):
             f = node.func
             if isinstance(f, ast.Attribute) and isinstance(
                     f.value, ast.Constant) and isinstance(f.value.value, str) \
-                    and f.attr in ("join",):
+                    and f.attr in ("join", "format"):
                 return ast.copy_location(ast.Call(
                     func=ast.Name(id="__s%s__" % f.attr, ctx=ast.Load()),
                     args=[f.value] + node.args, keywords=node.keywords), node)
@@ -179,6 +179,9 @@ def rewrite_str_methods(func, glb, module=None, qualname=None):
     ns = {}
     g = dict(func.__globals__)
     g.update(glb)
+    from .symx import sformat, sjoin
+    g.setdefault("__sjoin__", sjoin)
+    g.setdefault("__sformat__", sformat)
     import __future__
     exec(compile(tree, inspect.getsourcefile(func) + ":rewritten", "exec",
                  flags=__future__.annotations.compiler_flag), g, ns)
